@@ -115,7 +115,7 @@ def enum_specs(level):
         for e in exprs(["@0"], level):
             specs.append([f, e])
     # three members
-    seconds = [None, "@0 + 2", "-1", "@0 * 2"]
+    seconds = [None, "@0 + 2", "-1", "@0 * 2", "@0", "(@0)", "-@0"]
     thirds = [None] + [e for e in exprs(["@0", "@1"], 1) if "@" in e][:: (1 if level >= 2 else 3)] + ["7", "-7", "(1)"]
     for f in ([None, "2", "-2"] if level >= 2 else [None, "2"]):
         for s in seconds:
